@@ -146,9 +146,10 @@ func (x *Exec) discharge(solver string, timeout time.Duration, knownListed map[s
 				return r, m, total, err
 			}
 			// a model may be discarded as an artefact only where an artefact has a source: an
-			// uninterpreted stub was applied and the run is single-threaded (natively a schedule
-			// counterexample can fail to reproduce by chance - that is never evidence)
-			if attempt >= retries || ((len(x.uf) == 0 || x.NGo > 0) && (curOb == nil || curOb.Kind != "cover")) {
+			// uninterpreted stub was applied or the clock is symbolic (natively neither can be
+			// dictated). Otherwise - e.g. a schedule counterexample that failed to reproduce by
+			// chance - non-reproduction is never evidence that the assertion holds
+			if attempt >= retries || (!x.hasArtefactSource() && (curOb == nil || curOb.Kind != "cover")) {
 				return r, m, total, err
 			}
 			lastSpurious++
@@ -295,3 +296,8 @@ func (x *Exec) modelCube(model map[string]uint64) *Term {
 	}
 	return c
 }
+
+
+// hasArtefactSource reports whether this run contains something the native replay cannot be made
+// to follow: an uninterpreted function stub or symbolic clock readings.
+func (x *Exec) hasArtefactSource() bool { return len(x.uf) > 0 || x.SymClock }
